@@ -230,3 +230,52 @@ Proof.
   eexists; eexists. split; [vm_compute; reflexivity|]. split; [vm_compute; reflexivity|].
   vm_compute. discriminate.
 Qed.
+
+(* ------------------------------------------------------------------ what optimisation leaves alone *)
+Definition frame (tf : tfhd) (tr : trun) (p : tfhd * trun) : Prop :=
+  tr_won (snd p) = tr_won tr /\ has_doff (snd p) = has_doff tr /\ tr_samples (snd p) = tr_samples tr /\
+  tf_has_bdo (fst p) = tf_has_bdo tf /\ tf_track (fst p) = tf_track tf.
+
+Lemma frame_refl tf tr : frame tf tr (tf, tr).
+Proof. repeat split. Qed.
+
+Lemma frame_trans tf tr p q : frame tf tr p -> frame (fst p) (snd p) q -> frame tf tr q.
+Proof. intros (A1 & A2 & A3 & A4 & A5) (B1 & B2 & B3 & B4 & B5). repeat split; congruence. Qed.
+
+Lemma opt_dur_frame tf tr : frame tf tr (opt_dur tf tr).
+Proof.
+  unfold opt_dur. destruct (tr_samples tr); [apply frame_refl|].
+  destruct (has_dur tr && _); [|apply frame_refl]. unfold frame. cbn [fst snd]. bits. repeat split.
+Qed.
+
+Lemma opt_size_frame tf tr : frame tf tr (opt_size tf tr).
+Proof.
+  unfold opt_size. destruct (tr_samples tr); [apply frame_refl|].
+  destruct (has_size tr && _); [|apply frame_refl]. unfold frame. cbn [fst snd]. bits. repeat split.
+Qed.
+
+Lemma opt_flags_frame b tf tr : frame tf tr (opt_flags_gen b tf tr).
+Proof.
+  unfold opt_flags_gen. destruct (tr_samples tr) as [|s0 [|s1 l]]; try apply frame_refl.
+  destruct (has_sflags tr && _); [|apply frame_refl].
+  destruct (negb (s_flags s0 =? s_flags s1)); [|destruct b]; unfold frame; cbn [fst snd]; bits; repeat split.
+Qed.
+
+Lemma opt_cto_frame tf tr : frame tf tr (opt_cto tf tr).
+Proof.
+  unfold opt_cto. destruct (has_cto tr && _); [|apply frame_refl]. unfold frame. cbn [fst snd]. bits. repeat split.
+Qed.
+
+Lemma optimize_frame b tf tr tf' tr' : optimize_gen b tf tr = Ok (tf', tr') -> frame tf tr (tf', tr').
+Proof.
+  unfold optimize_gen. destruct (tr_samples tr) as [|s0 [|s1 l]] eqn:E; [discriminate| |].
+  - intros [= <- <-]. apply frame_refl.
+  - pose proof (opt_dur_frame tf tr) as K1. destruct (opt_dur tf tr) as [tf1 tr1].
+    pose proof (opt_size_frame tf1 tr1) as K2. destruct (opt_size tf1 tr1) as [tf2 tr2].
+    pose proof (opt_flags_frame b tf2 tr2) as K3. destruct (opt_flags_gen b tf2 tr2) as [tf3 tr3].
+    pose proof (opt_cto_frame tf3 tr3) as K4.
+    intros [= H]. rewrite H in K4.
+    apply (frame_trans tf tr (tf3, tr3)); [|exact K4].
+    apply (frame_trans tf tr (tf2, tr2)); [|exact K3].
+    apply (frame_trans tf tr (tf1, tr1)); [exact K1|exact K2].
+Qed.
